@@ -279,6 +279,25 @@ func jeFunc(name string, extra map[string]shim) transFunc {
 		types: jeTypes, consts: map[string]string{"nullLiteralBytes": "src"}, calls: merge(jeCalls, extra)}
 }
 
+// ---- the console encoder (zapcore/console_encoder.go): `c` is a VALUE embedding the logger's *jsonEncoder (the context);
+// the metadata columns go through a pooled sliceArrayEncoder (a record [elems] of printed texts), the context through
+// a clone of the JSON encoder (`context`, the primary object of writeContext)
+var conFields = map[string]fieldSpec{
+	"TimeKey": {"timeKey", "string"}, "LevelKey": {"levelKey", "string"}, "NameKey": {"nameKey", "string"},
+	"CallerKey": {"callerKey", "string"}, "FunctionKey": {"functionKey", "string"}, "MessageKey": {"messageKey", "string"},
+	"StacktraceKey": {"stacktraceKey", "string"}, "LineEnding": {"lineEnding", "string"}, "ConsoleSeparator": {"consoleSep", "string"},
+	"EncodeTime": {"encTime", "opt:TimeEncoder"}, "EncodeLevel": {"encLevel", "opt:LevelEncoder"},
+	"EncodeName": {"encName", "opt:NameEncoder"}, "EncodeCaller": {"encCaller", "opt:CallerEncoder"}, "#ev": {"ev", "[]Event"},
+}
+var conTypes = map[string]string{"*buffer.Buffer": "Buffer", "Entry": "struct:Entry", "Field": "Field", "Level": "i8",
+	"time.Time": "Time", "EntryCaller": "struct:EntryCaller", "*jsonEncoder": "JE"}
+var conStructs = map[string][]fieldSpec{
+	"Entry": {{"Level", "i8"}, {"Time", "Time"}, {"LoggerName", "string"}, {"Message", "string"},
+		{"Caller", "struct:EntryCaller"}, {"Stack", "string"}},
+	"EntryCaller": {{"Defined", "bool"}, {"Function", "string"}, {"Rest", "CallerRest"}},
+	"SliceEnc":    {{"elems", "[]Col"}},
+}
+
 var stdCalls = map[string]shim{
 	"bytes.IndexByte":       {kind: "builtin", f: "bytes.IndexByte", res: []string{"int"}},
 	"strings.IndexByte":     {kind: "builtin", f: "strings.IndexByte", res: []string{"int"}},
@@ -493,6 +512,45 @@ var transSpecs = []transSpec{
 				"Time.IsZero":           {kind: "ext", f: "Time.IsZero", res: []string{"bool"}},
 				"i8.String":             {kind: "ext", f: "Level.String", res: []string{"string"}},
 				"struct:EntryCaller.String": {kind: "ext", f: "EntryCaller.String", res: []string{"string"}},
+			})},
+	}},
+	{table: "TransConsole", funcs: []transFunc{
+		{file: "zapcore/console_encoder.go", recv: "consoleEncoder", name: "addSeparatorIfNecessary", lean: "addSeparatorIfNecessary",
+			fields: conFields, types: conTypes, inout: []string{"line"}, calls: bufferCalls},
+		{file: "zapcore/console_encoder.go", recv: "consoleEncoder", name: "writeContext", lean: "writeContext",
+			// `context` (the clone) is the primary object from the first statement on; `c` is the second one
+			fields: jeFields, recvAs: jeSelf, types: conTypes, inout: []string{"line"},
+			other: map[string]fieldSpec{"buf": {"o.buf", "Buffer"}, "spaced": {"o.spaced", "bool"}, "openNamespaces": {"o.openNs", "int"},
+				"ConsoleSeparator": {"consoleSep", "string"}},
+			calls: merge(bufferCalls, map[string]shim{
+				// Clone: proved about the source as Clone_matches_source (C08) — a copy of the context bytes in a fresh buffer
+				"recv.jsonEncoder.Clone.(*jsonEncoder)": {kind: "primary", f: "jsonEncoder.Clone",
+					flds: []string{"buf", "spaced", "openNamespaces", "reflectBuf", "reflectEnc"},
+					with: []string{"buf", "spaced", "openNamespaces"}, trace: "#ev"},
+				"Buffer.Free":              {kind: "extstmt", f: "Buffer.Free", trace: "#ev"},
+				"putJSONEncoder":           {kind: "extstmt", f: "putJSONEncoder", with: []string{"reflectBuf"}, trace: "#ev"},
+				"addFields":                {kind: "extfld", f: "addFields", flds: jeState, with: []string{"spaced"}},
+				"recv.closeOpenNamespaces": {kind: "extfld", f: "closeOpenNamespaces", flds: []string{"buf", "openNamespaces"}},
+				"other.addSeparatorIfNecessary": {kind: "funarg:0", f: "addSeparatorIfNecessary"},
+			})},
+		{file: "zapcore/console_encoder.go", recv: "consoleEncoder", name: "EncodeEntry", lean: "EncodeEntry",
+			fields: conFields, types: conTypes, structs: conStructs,
+			consts: map[string]string{"FullNameEncoder": "val:opt:NameEncoder|.list [.int 0]"},
+			calls: merge(bufferCalls, map[string]shim{
+				"bufferpool.Get":   {kind: "extstmt", f: "bufferpool.Get", res: []string{"Buffer"}, trace: "#ev"},
+				"getSliceEncoder":  {kind: "extstmt", f: "getSliceEncoder", res: []string{"struct:SliceEnc"}, trace: "#ev"},
+				"putSliceEncoder":  {kind: "extstmt", f: "putSliceEncoder", trace: "#ev"},
+				// the configured sub-encoders append to the slice encoder they are handed
+				"recv.EncodeTime":   {kind: "mutarg:1", f: "TimeEncoder.col", with: []string{"EncodeTime"}},
+				"recv.EncodeLevel":  {kind: "mutarg:1", f: "LevelEncoder.col", with: []string{"EncodeLevel"}},
+				"recv.EncodeCaller": {kind: "mutarg:1", f: "CallerEncoder.col", with: []string{"EncodeCaller"}},
+				"opt:NameEncoder()": {kind: "mutarg:1", f: "NameEncoder.col"},
+				"struct:SliceEnc.AppendString": {kind: "mut", f: "SliceEnc.AppendString"},
+				// fmt.Fprint(line, elem): the printed text of one column
+				"fmt.Fprint": {kind: "mutarg:0", f: "fmt.Fprint", res: []string{"int", "error"}},
+				"Time.IsZero": {kind: "ext", f: "Time.IsZero", res: []string{"bool"}},
+				"recv.addSeparatorIfNecessary": {kind: "funarg:0", f: "addSeparatorIfNecessary"},
+				"recv.writeContext":            {kind: "funarg:0", f: "writeContext"},
 			})},
 	}},
 	{table: "TransLogger", funcs: []transFunc{
